@@ -371,3 +371,27 @@ Proof.
   intros Hi Hc. rewrite (lay_rot_ok l c Hi Hc). cbn [rbind].
   rewrite (lay_rot_ok _ c (lay_rot_inside l c Hi) Hc). now rewrite lay_rot_twice.
 Qed.
+
+(* ---------- phase 3: read-only attributes, lists of regions ---------- *)
+Lemma props1_ok (s : reg1) : props1 s = props1_spec s.
+Proof. destruct s as [a b]. reflexivity. Qed.
+Lemma props2_ok (s : reg2) (p : reg1) : props2 s p = props2_spec s p.
+Proof. destruct s as [[[y0 y1] x0] x1]. destruct p as [a b]. reflexivity. Qed.
+Lemma pat_rot_ok (rs : list (option reg2)) s c :
+  forallb (oforall (inside2b s)) rs = true -> cornerb c = true -> pat_rot rs s c = Ok (pat_rot_spec rs s c).
+Proof.
+  intros H Hc. unfold pat_rot, pat_rot_spec. induction rs as [|r rs IH]; [reflexivity|].
+  cbn [forallb] in H. apply andb_prop in H. destruct H as [Hr Hrs].
+  cbn [mapM_res map]. rewrite rot_region_opt_ok by assumption. cbn [rbind]. rewrite IH by assumption. reflexivity.
+Qed.
+Lemma pat_rot_twice (rs : list (option reg2)) s c :
+  forallb (oforall (inside2b s)) rs = true -> cornerb c = true ->
+  rbind (pat_rot rs s c) (fun rs' => pat_rot rs' s c) = Ok rs.
+Proof.
+  intros H Hc. rewrite pat_rot_ok by assumption. cbn [rbind].
+  assert (Hin : forallb (oforall (inside2b s)) (pat_rot_spec rs s c) = true).
+  { unfold pat_rot_spec. rewrite forallb_forall in *. intros o Ho. apply in_map_iff in Ho. destruct Ho as [o' [<- Ho']].
+    specialize (H o' Ho'). destruct o' as [r|]; [|reflexivity]. cbn [option_map oforall] in *. now apply rot_region_inside. }
+  rewrite pat_rot_ok by assumption. f_equal. unfold pat_rot_spec. rewrite map_map.
+  rewrite <- (map_id rs) at 2. apply map_ext. intros [r|]; [|reflexivity]. cbn [option_map]. now rewrite rot_region_involutive.
+Qed.
